@@ -1,6 +1,6 @@
 """C20 - external variables turn unknowns into inputs without disturbing the rest (structural clauses)."""
 from facts import walk, render, role, is_call, AnalysisBroken
-from engines import ff, nth_arg, receiver
+from engines import ff, nth_arg, receiver, enclosing_conditions
 import issues
 from issues import must_pass
 from nullflow import nonnull_at
@@ -257,6 +257,36 @@ def run(F, rep):
     cfg_i = isr.cfg()
     for c in recs:
         rep.check(any(cfg_i.node_dominates(m_, c) for m_ in marks), 'C20.R1', 'mark-before-descend|%s' % render(c)[:40], isr.where(c), 'the recursive call is not dominated by the insertion of the current equation into %s: two equations that depend on each other recurse for ever' % cont[0]['n'], 'marked before descending')
+
+    # ------------------------------------------------------------------ D: dependencies are resolved completely and cleaned unconditionally
+    rep.rule('C20.D1', 'a dependency on a variable resolves to every equation that computes it: where analyseModel looks a dependency up in a local map, that map was filled with one key per variable, not with ONE key standing for a '
+                       'collection (`unknowns.front()`): with a partial index a declared dependency on the second unknown of an NLA system is silently dropped and the external callback runs before the system is solved')
+    am20 = F.fn1('Analyser::AnalyserImpl::analyseModel')
+    n_d1 = 0
+    for L in am20.walk():
+        if L.get('k') != 'RangeFor' or 'ependenc' not in render(role(L, 'range')):
+            continue
+        lv = L['c'][0].get('d')
+        for sub in walk(role(L, 'body')):
+            if sub.get('k') == 'Call' and (sub.get('opc') == '[]' or sub.get('fn') in ('at', 'find')) and sub.get('c') and sub['c'][0].get('k') == 'Ref' and sub['c'][0].get('dk') == 'local' \
+                    and 'std::map<' in (sub['c'][0].get('t') or '') and any(x.get('k') == 'Ref' and x.get('d') == lv for a_ in sub['c'][1:] for x in walk(a_)):
+                md = sub['c'][0]['d']
+                fills = [c for c in am20.walk() if c.get('k') == 'Call' and c.get('mc') and c.get('fn') in ('emplace', 'insert', 'try_emplace') and c['c'][0].get('k') == 'Ref' and c['c'][0].get('d') == md]
+                n_d1 += 1
+                partial = [render(nth_arg(c, 0))[:60] for c in fills if any(x.get('k') == 'Call' and (x.get('fn') in ('front', 'back') or (x.get('fn') == 'at' and render(nth_arg(x, 0)) == '0') or (x.get('opc') == '[]' and render(x['c'][-1]) == '0')) for x in walk(nth_arg(c, 0) or {}))]
+                rep.check(bool(fills) and not partial, 'C20.D1', 'analyseModel|%s[%s]' % (sub['c'][0]['n'], render(L['c'][0])[:30] or 'dependency'), am20.where(sub),
+                          'dependencies are looked up in `%s`, which is filled with the key `%s`: one element stands for the whole collection, so a dependency on any other element finds nothing' % (sub['c'][0]['n'], '`, `'.join(partial)), 'one key per variable')
+    if n_d1 < 1:
+        raise AnalysisBroken('C20.D1: the lookup of variable dependencies in a local map was not found in analyseModel')
+    rep.rule('C20.D2', 'AnalyserEquationImpl::cleanUpDependencies removes the empty dependencies of EVERY equation: the erase is unconditional (external equations have no AST, their declared dependencies on constants still have to go, '
+                       'otherwise dependencies() hands out null entries and the generator dereferences them)')
+    cud = F.fn1('AnalyserEquation::AnalyserEquationImpl::cleanUpDependencies')
+    er20 = [c for c in cud.walk() if c.get('k') == 'Call' and c.get('mc') and c.get('fn') == 'erase' and 'mDependencies' in render(c['c'][0])]
+    if not er20:
+        raise AnalysisBroken('cleanUpDependencies no longer erases from mDependencies')
+    rets20 = [r for r in cud.walk() if r.get('k') == 'Return']
+    rep.check(not enclosing_conditions(cud, er20[0]) and all(cud.cfg().node_dominates(er20[0], r) for r in rets20), 'C20.D2', 'cleanUpDependencies|unconditional', cud.where(er20[0]),
+              'cleanUpDependencies skips the clean-up when %s' % ([render(c_)[:40] for c_, b_, s_ in enclosing_conditions(cud, er20[0])] or 'an early return is taken'), 'unconditional erase')
 
 
 def _all_paths_pass(cfg, start, target, through_ids):
